@@ -89,6 +89,10 @@ def enforcement(res: Result, req: dict, identical: set):
             for label, x in (('schema_min', float(lo)), ('schema_max', float(hi)), ('schema_below_min', math.nextafter(float(lo), -math.inf)),
                              ('schema_above_max', math.nextafter(float(hi), math.inf))):
                 jobs.append(dict(j, label=label, text=f'{x!r} {u}', v=rat(x)))
+            dflt = sc.get('default')
+            for label, x, text in (('schema_minus_one', -1.0, '-1'), ('schema_zero', 0.0, '0')):      # bare, the way a sentinel would be written
+                if x < float(lo) and dflt != x and j['p'].get('cur') != rat(x) and j['p'].get('def') != rat(x):
+                    jobs.append(dict(j, label=label, text=text, v=rat(x)))
     outs = sim.call_in_pool('harness.c07:run_case', jobs)
     traces = [{'tid': k + 1, 'name': o['name'], 'text': o['text'], 'p': o['p'], 'v': o['v'], 'outcome': o['outcome'], 'named': bool(o['named']),
                'after': o['after'], 'factor': factor_of(o['family'], o['name'])} for k, o in enumerate(outs)]
